@@ -247,7 +247,9 @@ Tick ==
 \* ------------------------------------------------------------------ backend (one action per segment between yield points)
 Reload(c) == IF newFlag THEN ctxs ELSE c             \* _update_active_thread_contexts_cache
 Total(rg, c) == LET f[i \in 0..Len(c)] == IF i = 0 THEN 0 ELSE f[i - 1] + Len(rg[c[i]]) IN f[Len(c)]
-HasPending(c) == \E i \in 1..Len(c) : ring[c[i]] = <<>> /\ q[c[i]] # <<>>
+\* queue.empty() as the consumer evaluates it: no record and no further buffer linked behind the consumer's
+QEmpty(t) == q[t] = <<>> /\ Len(nodes[t]) = 1
+HasPending(c) == \E i \in 1..Len(c) : ring[c[i]] = <<>> /\ ~QEmpty(c[i])
 
 BStart ==
   /\ UNCHANGED LgVars /\ UNCHANGED acc /\ UNCHANGED RmVars
@@ -294,7 +296,7 @@ BRead ==
          batch == last /\ n # 0 /\ n >= Soft
          \* batch path: has_pending_events_for_caching_when_transit_event_buffer_empty() reloads the cache first
          c2 == IF batch THEN Reload(cache) ELSE cache
-         qOf(u) == IF u = t THEN rest ELSE q[u] IN
+         qNE(u) == IF u = t THEN (rest # <<>> \/ w.nd < Len(ns)) ELSE ~QEmpty(u) IN
      \* decoding a LoggerRemovalRequest registers the caller's flag under the logger's name
      /\ rmWait' = [l \in Loggers |-> IF \E i \in 1..Len(taken) : taken[i].kind = "rmreq" /\ taken[i].lg = l THEN t ELSE rmWait[l]]
      /\ q' = [q EXCEPT ![t] = rest] /\ ring' = rg2 /\ rpos' = [rpos EXCEPT ![t] = r2]
@@ -306,7 +308,7 @@ BRead ==
      /\ bpc' = IF ~last THEN "pop"
                ELSE IF n = 0 THEN "idle0"
                ELSE IF n < Soft THEN "proc"
-               ELSE IF \E i \in 1..Len(c2) : rg2[c2[i]] = <<>> /\ qOf(c2[i]) # <<>> THEN "start" ELSE "proc"
+               ELSE IF \E i \in 1..Len(c2) : rg2[c2[i]] = <<>> /\ qNE(c2[i]) THEN "start" ELSE "proc"
      /\ Step("B", "read", <<t>>, <<>>)
   /\ UNCHANGED <<now, fpc, cur, nlog, nflush, need, flag, wpos, fail, valid, reg, ctxs, invalidCnt, tsNow, lastIdle, flushWho, written,
                  flushedTo, nid, dropped, reported, anyLate, bad>>
@@ -320,7 +322,7 @@ NotifySeq(c) == IF c = <<>> THEN <<>>
                      \o NotifySeq(Tail(c))
 \* context clean-up: remove every invalid context whose queue and ring are empty (reporting its drop counter first
 \* when the code does so)
-Removable(c, rg) == {t \in Range(c) : ~valid[t] /\ q[t] = <<>> /\ rg[t] = <<>>}
+Removable(c, rg) == {t \in Range(c) : ~valid[t] /\ QEmpty(t) /\ rg[t] = <<>>}
 Without(sq, S) == LET P(x) == x \notin S IN SelectSeq(sq, P)
 
 \* _process_lowest_timestamp_transit_event up to the hook after pop_front
@@ -413,12 +415,12 @@ BIdle2 ==      \* are all queues and rings empty? (cache reload first)
   /\ UNCHANGED LgVars /\ UNCHANGED acc /\ UNCHANGED RmVars
   /\ bpc = "idle2"
   /\ cache' = Reload(cache) /\ newFlag' = FALSE
-  /\ bpc' = IF \A i \in 1..Len(Reload(cache)) : q[Reload(cache)[i]] = <<>> /\ ring[Reload(cache)[i]] = <<>> THEN "idle3" ELSE "start"
+  /\ bpc' = IF \A i \in 1..Len(Reload(cache)) : QEmpty(Reload(cache)[i]) /\ ring[Reload(cache)[i]] = <<>> THEN "idle3" ELSE "start"
   /\ UNCHANGED <<now, fpc, cur, nlog, nflush, need, flag, q, wpos, nodes, rpos, rpub, fail, valid, reg, ctxs, invalidCnt, ring, bi, tsNow,
                  batchMode, lastIdle, flushWho, written, flushedTo, nid, dropped, reported, anyLate, bad>>
   /\ Step("B", "idle2", <<>>, <<>>)
 
-AllEmptyNow(c) == \A i \in 1..Len(c) : q[c[i]] = <<>> /\ ring[c[i]] = <<>>
+AllEmptyNow(c) == \A i \in 1..Len(c) : QEmpty(c[i]) /\ ring[c[i]] = <<>>
 BIdle3 ==      \* clean up invalidated contexts, then invalidated loggers (and shrink rings); the poll ends
   /\ bpc = "idle3" /\ bpc' = "start" /\ lastIdle' = TRUE
   /\ LET rem == IF invalidCnt # 0 THEN Removable(cache, ring) ELSE {}
@@ -442,7 +444,7 @@ BIdle3 ==      \* clean up invalidated contexts, then invalidated loggers (and s
      /\ hasInval' = IF doLg THEN (pend \ gone) # {} ELSE hasInval
      /\ UNCHANGED lgValid
      \* C20 on the model: after an idle poll that found everything empty, retained contexts = live threads that logged
-     /\ bad' = Fail((\A t \in Threads : q[t] = <<>> /\ ring[t] = <<>> /\ ~newFlag) =>
+     /\ bad' = Fail((\A t \in Threads : QEmpty(t) /\ ring[t] = <<>> /\ ~newFlag) =>
                       Range(Without(ctxs, rem)) = {t \in Threads : reg[t] /\ valid[t]},
                     "C20: a dead thread's context is retained (or a live one removed) after an idle poll")
      /\ Step("B", "idle3", <<>>, (IF rep > 0 THEN <<[k |-> "notify", cls |-> "dropped", n |-> rep]>> ELSE <<>>)
